@@ -51,6 +51,20 @@ static void buildTree(vh::Rng& g, Model& M, int nb) {
     }
 }
 
+// A goal whose analytic gradient has the wrong sign: the line search of the optimizer then ends on a worse point (or throws
+// after moving the parameters); assemble() started within tolerance must notice and revert to the initial solution.
+struct HostileGoal : public AssemblyCondition {
+    Vector c;
+    explicit HostileGoal(const Vector& target) : AssemblyCondition("hostile"), c(target) {}
+    int calcGoal(const State& s, Real& goal) const override {
+        goal = 0; for (Assembler::FreeQIndex fx(0); fx < getNumFreeQs(); ++fx) { QIndex qx = getQIndexOfFreeQ(fx); goal += square(s.getQ()[qx] - c[qx]); }
+        return 0; }
+    int calcGoalGradient(const State& s, Vector& grad) const override {
+        grad.resize(getNumFreeQs());
+        for (Assembler::FreeQIndex fx(0); fx < getNumFreeQs(); ++fx) { QIndex qx = getQIndexOfFreeQ(fx); grad[fx] = -2 * (s.getQ()[qx] - c[qx]); }   // wrong sign
+        return 0; }
+};
+
 struct Rep : public EventReporter {
     const Assembler* a = nullptr; mutable std::vector<std::pair<double, double> > seen;
     void handleEvent(const State&) const override { seen.push_back({a->calcCurrentErrorNorm(), a->calcCurrentGoal()}); }
@@ -106,9 +120,10 @@ static int asmCase(vh::Rng& g, bool thorough) {
     if (tightAcc) asmb.setAccuracy(1e-6);
     if (g.below(5) == 0) asmb.setUseRMSErrorNorm(true);
     bool exact = true;
+    const bool hostile = !loop && g.below(8) == 0;
     Markers* markers = nullptr; OrientationSensors* osens = nullptr; double gwM = 1, gwO = 1;
     std::vector<std::tuple<int, Vec3, double> > mk; Array_<Vec3> obs;
-    if (g.below(10) < 8) {
+    if (!hostile && g.below(10) < 8) {
         markers = new Markers();
         bool noisy = g.below(4) == 0; if (noisy) exact = false;
         for (int b = 1; b <= nb; ++b) if (g.below(10) < 7) { int k = 1 + g.below(3);
@@ -121,7 +136,7 @@ static int asmCase(vh::Rng& g, bool thorough) {
         else { gwM = g.coin() ? 1.0 : g.range(0.5, 4); asmb.adoptAssemblyGoal(markers, gwM); tag += ".markers"; }
     }
     std::vector<std::tuple<int, Rotation, double> > os; Array_<Rotation> oobs;
-    if (g.below(10) < 3) {
+    if (!hostile && g.below(10) < 3) {
         osens = new OrientationSensors();
         for (int b = 1; b <= nb; ++b) if (g.coin()) { Rotation R_BS = rrot(g, 2.0); double w = g.coin() ? 1.0 : g.range(0.2, 3);
             osens->addOSensor(M.mob[b].getMobilizedBodyIndex(), R_BS, w); os.push_back({b, R_BS, w});
@@ -129,6 +144,7 @@ static int asmCase(vh::Rng& g, bool thorough) {
         if (os.empty()) { delete osens; osens = nullptr; }
         else { gwO = g.coin() ? 1.0 : g.range(0.5, 4); asmb.adoptAssemblyGoal(osens, gwO); tag += ".osensors"; }
     }
+    if (hostile) { asmb.adoptAssemblyGoal(new HostileGoal(ref.getQ()), 1.0); tag += ".hostileGradient"; exact = false; }
     // start state
     State start = ref; double pert = g.below(5) == 0 ? 0.0 : g.range(0.02, 0.35);
     for (int i = 0; i < nq; ++i) start.updQ()[i] = ref.getQ()[i] + g.range(-pert, pert);
@@ -155,7 +171,7 @@ static int asmCase(vh::Rng& g, bool thorough) {
         if (kind[q] == 0) { kind[q] = 2; lo[q] = l; hi[q] = h; if (excl) exact = false; }
         tag += excl ? ".rangeExcl" : ".range"; }
     std::sort(lockedList.begin(), lockedList.end());
-    int mode = g.below(10) < 7 ? 0 : 1;
+    int mode = (hostile || g.below(10) < 7) ? 0 : 1;
     Rep rep; rep.a = &asmb; asmb.addReporter(rep);
     try {
         asmb.setInternalState(start);
